@@ -130,6 +130,18 @@ def judge(folder: str, model: dict, container_cls) -> dict:
             if got != data:
                 effective, why = True, f'{key[:10]} read back as different bytes'
                 break
+            # the same object through a seeking read (a compressed packed object is then served from its loose copy)
+            try:
+                with cont.get_object_stream(key) as stream:
+                    stream.seek(0, 2)
+                    stream.seek(0)
+                    got = stream.read()
+            except Exception as exc:  # pylint: disable=broad-except
+                effective, why = True, f'{key[:10]} unreadable after a seek ({type(exc).__name__})'
+                break
+            if got != data:
+                effective, why = True, f'{key[:10]} read back as different bytes after a seek (served from its loose copy)'
+                break
             try:
                 meta = cont.get_object_meta(key)
             except Exception as exc:  # pylint: disable=broad-except
